@@ -152,6 +152,15 @@ class ProviderSession:
         trace = [{'act': 'Init', 'post': self.proj.project(self.pair.mdib)}]
         idled = False
         for i, rec in enumerate(beh):
+            if rec.get('reboot'):
+                # a new provider instance at the same address (its transaction ids start again); the consumer reconnects
+                self.pair.provider._transaction_id = 0   # noqa: SLF001
+                # (the consumer's event sink lives on a shared server of the harness: restart() registers it again,
+                #  which a PathElementRegistry refuses - the application has to free the path element itself)
+                self.pair.cserver.dispatcher._instances.pop(self.pair.consumer.path_prefix, None)   # noqa: SLF001
+                self.pair.consumer.restart()
+                self.pair.renew_all()
+                self.log_pos = len(self.pair.net.log)
             if rec.get('idle', 'none') != 'none':
                 self._idle(rec['idle'])
                 idled = True
@@ -170,7 +179,7 @@ class ProviderSession:
                     raise MachineryError(f'operation future did not complete: {ex!r}') from ex
                 # the transaction never reached a final state: recorded as it is (response Wait, the reports seen)
                 trace.append({'act': 'Request', 'kind': kind, 'known': rec['known'], 'queued': rec['queued'],
-                              'outcome': rec['outcome'], 'idle': rec.get('idle', 'none'),
+                              'outcome': rec['outcome'], 'idle': rec.get('idle', 'none'), 'reboot': bool(rec.get('reboot')),
                               'tx': self.pair.provider._transaction_id, 'resp': 'Wait',   # noqa: SLF001
                               'resp_error': False, 'reports': self._reports(), 'result_state': 'none',
                               'result_parts': [], 'unchanged': self.proj.project(self.pair.mdib) == before})
@@ -178,7 +187,8 @@ class ProviderSession:
             time.sleep(0.06 if self.slow else 0.005)   # let both threads finish sending (reports are synchronous on the loop-back)
             resp = result.set_response.InvocationInfo
             out = {'act': 'Request', 'kind': kind, 'known': rec['known'], 'queued': rec['queued'],
-                   'outcome': rec['outcome'], 'idle': rec.get('idle', 'none'), 'tx': resp.TransactionId, 'resp': resp.InvocationState.value,
+                   'outcome': rec['outcome'], 'idle': rec.get('idle', 'none'), 'reboot': bool(rec.get('reboot')),
+                   'tx': resp.TransactionId, 'resp': resp.InvocationState.value,
                    'resp_error': resp.InvocationError is not None,
                    'reports': [r for r in self._reports()],
                    'result_state': result.InvocationInfo.InvocationState.value,
@@ -414,6 +424,13 @@ def check(run, replay_path=None):
     # an idle phase costs real time (the worker has to come round): few behaviours with exactly one idle phase that is
     # followed by a queued request, the rest without
     plain = [b for b in pbehs if all(r['idle'] == 'none' for r in b)]
+    # (a third of the plain behaviours with a provider reboot + consumer restart between two requests)
+    rebooted = [b for b in plain if any(r['reboot'] for r in b)]
+    steady = [b for b in plain if not any(r['reboot'] for r in b)]
+    n_plain = run.pick(52, 1080)
+    plain = steady[:n_plain - n_plain // 3] + rebooted[:n_plain // 3]
+    if not rebooted:
+        raise MachineryError('provider behaviours: none with a reboot')
     idle = [b for b in pbehs if sum(r['idle'] != 'none' for r in b) == 1
             and any(r['idle'] != 'none' and i + 1 < len(b) + 1 and r['known'] and r['queued'] for i, r in enumerate(b))]
     n_idle = run.pick(8, 120)
@@ -421,7 +438,7 @@ def check(run, replay_path=None):
     idle_q = [b for b in idle if any(r['idle'] == 'quiet' for r in b)][:n_idle // 2]
     if not plain or not idle_r or not idle_q:
         raise MachineryError('provider behaviours: missing a class of behaviours (plain / idle quiet / idle raises)')
-    pbehs = idle_r + idle_q + plain[:run.pick(52, 1080)]
+    pbehs = idle_r + idle_q + plain
     run.note('provider_behaviours', {'plain': len(pbehs) - len(idle_r) - len(idle_q), 'idle_raises': len(idle_r),
                                      'idle_quiet': len(idle_q)})
     ptraces = []
